@@ -28,3 +28,24 @@ Theorem C19_lns_division_by_zero : forall n sat a b,
   (l_decode n a = LZero -> (exists s E, l_decode n b = LVal s E) -> l_div n sat a b = l_encode n LZero).
 Proof. exact l_div_specials. Qed.
 Print Assumptions C19_lns_division_by_zero.
+
+(* cfloat: quiet mode signals division by zero with an infinity (0/0 and NaN operands with NaN); a finite non-zero divisor never does;
+   integer / fixpnt / elastic types have no error value at all: division by a non-zero divisor is total in the models (C07, C08, C14),
+   so the only operand class the throwing builds may treat differently is "divisor is zero" *)
+From UV Require Import CfloatModel CfloatProps IntegerModel IntProps.
+Theorem C19_cfloat_division_error_operands :
+  (forall s t p q, Qeq_bool p 0 = true -> Qeq_bool q 0 = true -> num_div (Fin s p) (Fin t q) = NaN) /\
+  (forall s t p q, Qeq_bool p 0 = false -> Qeq_bool q 0 = true -> num_div (Fin s p) (Fin t q) = Inf (xorb s t)) /\
+  (forall s t p q, Qeq_bool q 0 = false -> num_div (Fin s p) (Fin t q) = Fin (xorb s t) (Qred (p / q))) /\
+  (forall x, num_div NaN x = NaN /\ num_div x NaN = NaN).
+Proof.
+  destruct num_specials as (_ & _ & Z0 & _ & Zi & Nn).
+  split; [exact Z0|]. split; [exact Zi|]. split.
+  - intros s t p q H. exact (proj1 (proj2 (num_zero_sign s t p q)) H).
+  - intro x. destruct (Nn x) as (_ & _ & _ & _ & A & B). split; assumption.
+Qed.
+Print Assumptions C19_cfloat_division_error_operands.
+Theorem C19_integer_division_total : forall n, 1 <= n -> forall a b, sgn n b <> 0 ->
+  sgn n a = sgn n b * Z.quot (sgn n a) (sgn n b) + Z.rem (sgn n a) (sgn n b).
+Proof. intros n Hn a b Hb. apply Z.quot_rem'. Qed.
+Print Assumptions C19_integer_division_total.
